@@ -220,12 +220,171 @@ def b_multipoint(ctx):
     ctx.sample({'sequence': [100, 0, 80, 20, 60, 40], 'ratios': (1.0, 2.0, 3.0)})
 
 
+
+# ---------------------------------------------------------------------------------------------
+# P: the control skeleton of the HCM step against the guideline's decision table
+# ---------------------------------------------------------------------------------------------
+FN = 'pylife/stress/rainflow/fkm_nonlinear.py::FKMNonlinearDetector'
+
+
+class Ghost:
+    """stateless opaque value: attribute / item access, calls and arithmetic yield opaque values again (message strings, point histories, pandas objects)"""
+    pv_stateless = True
+
+    def __init__(self, tag):
+        self.tag = tag
+
+    def pv_getattr(self, attr):
+        return Ghost(f'{self.tag}.{attr}')
+
+    def pv_getitem(self, idx):
+        return Ghost(f'{self.tag}[]')
+
+    def pv_binop(self, other):
+        return self
+
+    def __call__(self, *a, **k):
+        return Ghost(f'{self.tag}()')
+
+    def __repr__(self):
+        return f'Ghost({self.tag})'
+
+
+class Point(Ghost):
+    """a point of the stress-strain path: only its representative load is visible to the control skeleton"""
+    def __init__(self, tag, load=None):
+        super().__init__(tag)
+        self.load = load
+
+    def pv_getattr(self, attr):
+        if attr == 'load_representative' and self.load is not None:
+            from pv.sym import SV
+            return SV(self.load)
+        return Ghost(f'{self.tag}.{attr}')
+
+
+class Residuals(Ghost):
+    def __init__(self, p0, p1):
+        super().__init__('residuals')
+        self.p0, self.p1 = p0, p1
+
+    def pv_getitem(self, idx):
+        if idx == -1:
+            return self.p1
+        if idx == -2:
+            return self.p0
+        raise KeyError(idx)
+
+
+@obligation('C05', 'hcm.sample.step=decision-table', functions=[FN + '._hcm_process_sample'])
+def hcm_step(o):
+    """control skeleton of FKMNonlinearDetector._hcm_process_sample, one pass through its loop from an arbitrary state (IZ, IR, largest |load| so far, current load L,
+    loads L0 / L1 of the two topmost residuals), with the six handlers replaced by event-logging contracts: the handler chosen is the one the guideline's decision
+    table allows (a i / Memory 3: IZ = IR and |L| exceeds the largest load; a ii: IZ = IR otherwise; b: IZ < IR; c i: IZ > IR and |L - L1| < |L1 - L0|; c ii: IZ > IR
+    otherwise, closing the hysteresis (residual[-2], residual[-1])), after c ii the rule is applied again (Memory 2) only if both points lie strictly inside the largest
+    load and the primary branch is resumed (Memory 1) only if not; IR is raised exactly with Memory 3, IZ drops by two exactly with a closed hysteresis; comparisons
+    are the guideline's up to the code's absolute tolerance of 1e-12"""
+    from pv.interp import Obj
+    from pv.sym import SV, RV
+    cls = o.cls(FN)
+    L, mx, L0, L1 = o.reals('L load_max_seen L0 L1')
+    iz0, ir0 = o.int('iz'), o.int('ir')
+    o.assume(mx >= 0, ir0 >= 1, iz0 >= 0)
+    tol = RV(1e-12)
+    P = FN + '._hcm_process_sample'
+    G = {}
+
+    def logger(name, ret):
+        def apply(I, args, kw):
+            I.path.ghost_log.append((name, kw))
+            return ret(kw)
+        return apply
+    o.spec(FN + '._handle_case_a_i', logger('a_i', lambda kw: (Point('point<-a_i'), Ghost('recording<-a_i'))))
+    o.spec(FN + '._handle_case_a_ii', logger('a_ii', lambda kw: Point('point<-a_ii')))
+    o.spec(FN + '._handle_case_b', logger('b', lambda kw: Point('point<-b')))
+    o.spec(FN + '._handle_case_c_i', logger('c_i', lambda kw: Point('point<-c_i')))
+    o.spec(FN + '._handle_case_c_ii', logger('c_ii', lambda kw: Ghost('recording<-c_ii')))
+    o.spec(FN + '._proceed_on_primary_branch', logger('primary', lambda kw: Point('point<-primary')))
+    o.loop(P, 0, lambda v: z3.BoolVal(True))
+    o.skip_kinds = {'inv-init', 'inv-preserve', 'variant'}
+
+    def thunk():
+        o.I.path.ghost_log = []
+        p0, p1 = Point('residual[-2]', L0), Point('residual[-1]', L1)
+        det = Obj(cls)
+        det.fields.update({'_residuals': Residuals(p0, p1), '_hcm_message': Ghost('message'), '_hcm_point_history': Ghost('history'), '_strain_values': Ghost('strain_values'),
+                           '_run_index': SV(o.I.fresh('run_index', 'int')), '_n_strain_values_first_run': SV(o.I.fresh('n_strain', 'int')), '_hysteresis_index': SV(o.I.fresh('hyst', 'int'))})
+        G['p0'], G['p1'] = p0, p1
+        o.I.path.ghost_pts = (p0, p1)
+        return o.I.call(o.method(det, '_hcm_process_sample'), [], dict(current_point=Point('current'), recording_lists=Ghost('recording0'), largest_point=Point('largest'),
+                                                                    iz=SV(iz0), ir=SV(ir0), load_max_seen=SV(mx), current_load_representative=SV(L)))
+    ps = o.paths(thunk)
+
+    def ab(x):
+        return z3.If(x >= 0, x, -x)
+    clauses = {}
+
+    def clause(label, pc, goal):
+        clauses.setdefault(label, []).append(z3.Implies(z3.And(*pc) if pc else z3.BoolVal(True), goal if z3.is_expr(goal) else z3.BoolVal(bool(goal))))
+    shapes = []
+    for p in ps:
+        if p.kind not in ('return', 'end'):
+            shapes.append(('?', p.kind))
+            clause('no exception in the control skeleton', p.pc, False)
+            continue
+        S = p.loop_start
+        iz, ir = S['iz'], S['ir']
+        ev = [e[0] for e in p.ghost_log]
+        kws = [e[1] for e in p.ghost_log]
+        p0, p1 = p.ghost_pts
+        cont = p.kind == 'end'
+        shapes.append((tuple(ev), 'continue' if cont else 'exit'))
+        allowed = {('a_i',): z3.And(iz == ir, ab(L) > mx), ('a_ii',): z3.And(iz == ir, ab(L) <= mx + tol), ('b',): iz < ir,
+                   ('c_i',): z3.And(iz > ir, ab(L - L1) < ab(L1 - L0)),
+                   ('c_ii',): z3.And(iz > ir, ab(L - L1) >= ab(L1 - L0) - tol, ab(L0) < mx, ab(L1) < mx),
+                   ('c_ii', 'primary'): z3.And(iz > ir, ab(L - L1) >= ab(L1 - L0) - tol, z3.Not(z3.And(ab(L0) < mx - tol, ab(L1) < mx - tol)))}
+        key = tuple(ev)
+        clause('the handlers called form one row of the decision table', p.pc, key in allowed and (cont == (key == ('c_ii',))))
+        if key not in allowed:
+            continue
+        clause('the row taken is one the guideline allows for the state (comparisons up to 1e-12)', p.pc, allowed[key])
+        if cont:
+            E = p.loop_end
+            iz2, ir2 = E['iz'], E['ir']
+        else:
+            ret = p.result
+            iz2, ir2 = ret[1].t, ret[2].t
+        clause('IR is raised by one exactly with Memory 3 (a i)', p.pc, ir2 == (ir + 1 if key == ('a_i',) else ir))
+        clause('IZ drops by two exactly when a hysteresis is closed (c ii)', p.pc, iz2 == (iz - 2 if key[0] == 'c_ii' else iz))
+        if key[0] == 'c_ii':
+            clause('c ii closes the hysteresis of the two topmost residuals', p.pc, kws[0].get('previous_point_0') is p0 and kws[0].get('previous_point_1') is p1)
+        if key[0] in ('a_i', 'a_ii'):
+            clause('a i / a ii continue from the topmost residual', p.pc, kws[0].get('previous_point') is p1)
+        if key[0] == 'c_i':
+            clause('c i hangs the new branch at the topmost residual', p.pc, kws[0].get('previous_point_1') is p1)
+        if not cont:
+            want_point = {'a_i': 'point<-a_i', 'a_ii': 'point<-a_ii', 'b': 'point<-b', 'c_i': 'point<-c_i', 'primary': 'point<-primary'}[key[-1]]
+            want_rec = 'recording<-a_i' if key == ('a_i',) else ('recording<-c_ii' if key[0] == 'c_ii' else 'recording0')
+            clause('the point and the recording lists returned are those of the last handler', p.pc,
+                   getattr(ret[0], 'tag', None) == want_point and getattr(ret[3], 'tag', None) == want_rec)
+    want_shapes = {(('a_i',), 'exit'), (('a_ii',), 'exit'), (('b',), 'exit'), (('c_i',), 'exit'), (('c_ii',), 'continue'), (('c_ii', 'primary'), 'exit')}
+    o.shape('every row of the decision table is reachable and nothing else is', set(shapes) == want_shapes, sorted(map(str, set(shapes) ^ want_shapes)))
+    for label, fs in clauses.items():
+        o.prove(label, z3.And(*fs), kind='refine')
+    o.canary('canary: Memory 2 is never taken', z3.BoolVal(not any(s_[1] == 'continue' for s_ in shapes)))
+    o.trusted("contracts of the six handlers (_handle_case_a_i/a_ii/b/c_i/c_ii, _proceed_on_primary_branch): they compute stresses / strains and record, and do not touch IZ, IR or the loop control; checked only by the bounded stand-in")
+    o.note(f"{len(ps)} paths through the loop body; residual stack, message strings and point history are ghost values")
+
+
 META = {
-    'level': 'exploration',
-    'explanation': "bounded stand-in (labelled): the bookkeeping is a whole-history statement over pandas Series plumbing; the recorder output of the real detector is compared "
-                   "column by column with an independent executable implementation of the guideline's HCM procedure (primary branch, Masing secondary branches, Memory 1-3, "
-                   "running strain extremes) using the same law object, for every sequence up to the stated length; batches of proportional points against single-point runs.",
-    'not_decided': ["sequences / batches beyond the bound", "sequences that fall under the C04 junction finding are skipped and counted"],
-    'trusted_base': ['independent oracle specs/hcm_spec.HCMNonlinear', 'the wrapped law as a function (same load => same value)'],
-    'rule': "sequences enumerated completely up to the bound; non-trivial = closed and half hystereses both occur",
+    'level': 'other',
+    'explanation': "mixed. Proved: the control skeleton of the HCM step (FKMNonlinearDetector._hcm_process_sample, its real loop body run from an arbitrary state with the six "
+                   "handlers replaced by event-logging contracts) takes exactly the row of the guideline's decision table that the state allows - Memory 1 / 2 / 3, which residuals "
+                   "form the closed hysteresis, IR raised only with Memory 3, IZ lowered by two only with a closed hysteresis. Bounded stand-in (labelled) for the whole-history "
+                   "statement: the recorder output of the real detector is compared column by column with an independent executable implementation of the guideline's HCM "
+                   "procedure (primary branch, Masing secondary branches, Memory 1-3, running strain extremes) using the same law object, for every sequence up to the stated "
+                   "length; batches of proportional points against single-point runs.",
+    'not_decided': ['sequences / batches beyond the bound', 'the handlers themselves (stress / strain values, recording lists): bounded only',
+                    'sequences that fall under the C04 junction finding are skipped and counted'],
+    'trusted_base': ['independent oracle specs/hcm_spec.HCMNonlinear', 'assumed frame contracts of the six handlers'],
 }
